@@ -82,6 +82,9 @@ def replay_zmk(parts, master=None, kcvkeys=None):
         got_k = key.calculate_kcv(bytes.fromhex(kk))
         if got_k != want_k:
             return True, 'KCV of %d-byte key %s is %s, E(key, zeros) starts %s' % (len(kk) // 2, kk, got_k, want_k), 'C14/kcv'
+    for n in (1, 4, 5, 7, 16):
+        if key.calculate_kcv(bytes.fromhex(want), n) != k0[:n]:
+            return True, 'calculate_kcv(kvc_length=%d) = %r, E(key,0) starts %r' % (n, key.calculate_kcv(bytes.fromhex(want), n), k0[:n]), 'C14/kcv'
     master = master or '0123456789abcdeffedcba9876543210'
     enc, kcv2 = key.get_enc_zone_master_key(master, *parts)
     e = Cipher(d_algorithms.TripleDES(bytes.fromhex(master)), modes.ECB()).encryptor()
